@@ -516,3 +516,100 @@ func ruleG20(r *Run) {
 		r.Undec("rate arithmetic", 0, "no division found in rpc/plugins/limiter")
 	}
 }
+
+// P9 (C19): a batch is delivered whole.
+func init() {
+	register("P9", "every loop of the push plugin that walks a batch (range over the topics of a delivery, over the messages of a topic, over the ids of a multicast, sync.Map.Range over the subscribers or topics) visits every element: no return, break or goto leaves a range loop from inside its body, and every Range callback returns true on every path - an item-local condition skips one item (continue), it does not drop the rest of the batch, which the broker has already removed from its cache", 5, ruleP9)
+}
+
+func ruleP9(r *Run) {
+	p := r.P
+	pkg := p.Pkg("rpc/plugins/push")
+	if pkg == nil {
+		r.Undec("package rpc/plugins/push", 0, "not found")
+		return
+	}
+	info := pkg.TypesInfo
+	n := 0
+	for _, file := range pkg.Syntax {
+		for _, d := range file.Decls {
+			fd, ok := d.(*ast.FuncDecl)
+			if !ok || fd.Body == nil {
+				continue
+			}
+			perFn := 0
+			ast.Inspect(fd.Body, func(m ast.Node) bool {
+				switch x := m.(type) {
+				case *ast.RangeStmt:
+					n++
+					perFn++
+					key := fmt.Sprintf("batch loop over %s in %s #%d", types.ExprString(x.X), p.DeclName(fd), perFn)
+					bad := ""
+					var scan func(node ast.Node, depth int)
+					scan = func(node ast.Node, depth int) {
+						ast.Inspect(node, func(k ast.Node) bool {
+							if k == node {
+								return true
+							}
+							switch y := k.(type) {
+							case *ast.FuncLit:
+								return false
+							case *ast.ForStmt, *ast.RangeStmt, *ast.SwitchStmt, *ast.TypeSwitchStmt, *ast.SelectStmt:
+								scan(y, depth+1)
+								return false
+							case *ast.ReturnStmt:
+								bad = "return at " + p.Rel(y.Pos())
+							case *ast.BranchStmt:
+								if y.Tok == token.GOTO || (y.Tok == token.BREAK && (depth == 0 || y.Label != nil)) {
+									bad = y.Tok.String() + " at " + p.Rel(y.Pos())
+								}
+							}
+							return true
+						})
+					}
+					scan(x.Body, 0)
+					r.Check(bad == "", key, x.Pos(), "no exit from inside the loop body", fmt.Sprintf("the loop over the batch is left by a %s: the elements not yet visited are dropped although the broker accepted them and already removed them from its cache (they are delivered to nobody)", bad))
+				case *ast.CallExpr:
+					if methodName(x) != "Range" || len(x.Args) != 1 {
+						return true
+					}
+					fl, ok := ast.Unparen(x.Args[0]).(*ast.FuncLit)
+					if !ok {
+						return true
+					}
+					if f := Callee(info, x); f == nil || !strings.HasPrefix(FullName(f), "sync.Map.Range") && !strings.Contains(FullName(f), "Map).Range") && FullName(f) != "sync.(*Map).Range" {
+						// other Range implementations (cmap) follow the same contract
+					}
+					n++
+					perFn++
+					key := fmt.Sprintf("Range callback on %s in %s #%d", types.ExprString(x.Fun.(*ast.SelectorExpr).X), p.DeclName(fd), perFn)
+					bad := ""
+					ast.Inspect(fl.Body, func(k ast.Node) bool {
+						if inner, ok := k.(*ast.FuncLit); ok && inner != fl {
+							return false
+						}
+						if ifs, ok := k.(*ast.IfStmt); ok {
+							// `if err != nil { return false }`: stopping on a failure that the caller retries is not a skipped element
+							if be, ok := ast.Unparen(ifs.Cond).(*ast.BinaryExpr); ok && be.Op == token.NEQ {
+								if tv, ok := info.Types[be.X]; ok && tv.Type.String() == "error" {
+									return false
+								}
+							}
+						}
+						if ret, ok := k.(*ast.ReturnStmt); ok && len(ret.Results) == 1 {
+							if id, ok := ast.Unparen(ret.Results[0]).(*ast.Ident); !ok || id.Name != "true" {
+								bad = "return " + types.ExprString(ret.Results[0]) + " at " + p.Rel(ret.Pos())
+							}
+						}
+						return true
+					})
+					r.Check(bad == "", key, x.Pos(), "every return continues the iteration", "the Range callback can stop the iteration ("+bad+"): the remaining subscribers/topics are skipped")
+				}
+				return true
+			})
+		}
+	}
+	if n == 0 {
+		r.Undec("batch loops", 0, "no range loops / Range callbacks found in rpc/plugins/push")
+	}
+}
